@@ -79,6 +79,7 @@ class Probe(SourceProxy):
             self._ol = BaseOverlay(*rules)
             self._raw = raw
             self._activated = False
+            self._deactivated = False
 
     def _make_emitter(self, sel):
         tags = set(sel.all_tags)
@@ -142,6 +143,10 @@ class Probe(SourceProxy):
 
         This is used internally.
         """
+        if self._deactivated:
+            # An activation of a probed function (a suspended generator, the
+            # call the probe was deactivated from) may outlive the probe
+            return ABSENT
         if not self._raw:
             data = {name: cap.value for name, cap in data.items()}
         self._push(data)
@@ -152,6 +157,8 @@ class Probe(SourceProxy):
 
         Used for selectors with two focuses
         """
+        if self._deactivated:
+            return ABSENT
         if not self._raw:
             data = {name: cap.value for name, cap in data.items()}
 
@@ -194,6 +201,7 @@ class Probe(SourceProxy):
                 obs.on_completed()
         finally:
             self._observers.clear()
+            self._deactivated = True
             self._exit()
 
     def activate(self):
